@@ -7,6 +7,7 @@ import (
 	"golang.org/x/telemetry/internal/counter"
 	"golang.org/x/telemetry/internal/telemetry"
 	"golang.org/x/telemetry/internal/vrt"
+	"golang.org/x/telemetry/internal/vrt/vcounter"
 	"golang.org/x/telemetry/internal/vrt/vhttp"
 	"golang.org/x/telemetry/internal/vrt/vos"
 	"golang.org/x/telemetry/internal/vrt/vrand"
@@ -23,13 +24,14 @@ func VerifUploadReport(cfg *telemetry.UploadConfig, files []*counter.File, x flo
 	vuSetX(x)
 	for i, f := range files {
 		path := vuDir + "/local/f" + string(rune('0'+i)) + ".v1.count"
-		vos.AddFile(path, []byte("x"))
+		tok := "x" + string(rune('0'+i))
+		vos.AddFile(path, []byte(tok))
 		if f.Meta == nil {
 			f.Meta = map[string]string{}
 		}
 		f.Meta["TimeBegin"] = vrt.RFC3339Midnight(end - 7)
 		f.Meta["TimeEnd"] = vrt.RFC3339Midnight(end)
-		u.cache.m[path] = f
+		vcounter.Register(tok, f)
 	}
 	if err := u.Run(); err != nil {
 		return nil, len(vhttp.Log)
